@@ -52,22 +52,189 @@ def parseChoice (j : Json) : Except String (Tid × Bool) := do
     return (tid, alt)
   | _ => do let tid ← j.getNat?; return (tid, false)
 
+/-! ## Program points (`Pc` constructors) by name -/
+
+def callerName : Caller → String
+  | .get => "get" | .batch => "batch"
+
+/-- Name of a program point: the constructor name, `get_nowait`'s points suffixed by their caller. -/
+def _root_.MlModel.Queue.Pc.name : Pc → String
+  | .start => "start" | .done => "done"
+  | .nAcq c => "nAcq." ++ callerName c | .nGet c => "nGet." ++ callerName c | .nEmp c => "nEmp." ++ callerName c
+  | .nNaOk c => "nNaOk." ++ callerName c | .nNaErr c => "nNaErr." ++ callerName c
+  | .nRelOk c => "nRelOk." ++ callerName c | .nRelErr c => "nRelErr." ++ callerName c
+  | .gAcq => "gAcq" | .gR0 => "gR0" | .gR1 => "gR1" | .gR2 => "gR2" | .gR3 => "gR3" | .gR4 => "gR4"
+  | .gRet => "gRet" | .gWait => "gWait" | .gWake => "gWake" | .gRaise => "gRaise"
+  | .bAcq => "bAcq" | .bR0 => "bR0" | .bR1 => "bR1" | .bR2 => "bR2" | .bR3 => "bR3" | .bR4 => "bR4"
+  | .bEmp => "bEmp" | .bWait => "bWait" | .bWake => "bWake" | .bRaise => "bRaise" | .bExit => "bExit"
+  | .bE1 => "bE1" | .bE2 => "bE2" | .bE3 => "bE3"
+  | .sAcq => "sAcq" | .sRel => "sRel" | .eNext => "eNext"
+  | .pAcq => "pAcq" | .pPut => "pPut" | .pStAcq => "pStAcq" | .pStRel => "pStRel"
+  | .pR0 => "pR0" | .pR1 => "pR1" | .pR2 => "pR2" | .pR3 => "pR3" | .pR4 => "pR4" | .pRet => "pRet"
+  | .pWait => "pWait" | .pWake => "pWake" | .pRaiseT => "pRaiseT" | .pExit => "pExit"
+  | .tAcq => "tAcq" | .tR0 => "tR0" | .tR1 => "tR1" | .tR2 => "tR2" | .tR3 => "tR3" | .tR4 => "tR4"
+  | .tS0 => "tS0" | .tS1 => "tS1" | .tS2 => "tS2" | .tS3 => "tS3" | .tS4 => "tS4" | .tRel => "tRel"
+  | .mAcq => "mAcq" | .mRel => "mRel" | .mE0 => "mE0" | .mE1 => "mE1" | .mE2 => "mE2"
+  | .mD0 => "mD0" | .mD1 => "mD1" | .mD2 => "mD2"
+
+/-- Every `Pc` constructor (completeness: `Pc.all_complete` below). -/
+def _root_.MlModel.Queue.Pc.all : List Pc :=
+  [.start, .done] ++
+  [Caller.get, Caller.batch].flatMap (fun c =>
+    [.nAcq c, .nGet c, .nEmp c, .nNaOk c, .nNaErr c, .nRelOk c, .nRelErr c]) ++
+  [.gAcq, .gR0, .gR1, .gR2, .gR3, .gR4, .gRet, .gWait, .gWake, .gRaise,
+   .bAcq, .bR0, .bR1, .bR2, .bR3, .bR4, .bEmp, .bWait, .bWake, .bRaise, .bExit, .bE1, .bE2, .bE3,
+   .sAcq, .sRel, .eNext,
+   .pAcq, .pPut, .pStAcq, .pStRel, .pR0, .pR1, .pR2, .pR3, .pR4, .pRet, .pWait, .pWake, .pRaiseT, .pExit,
+   .tAcq, .tR0, .tR1, .tR2, .tR3, .tR4, .tS0, .tS1, .tS2, .tS3, .tS4, .tRel,
+   .mAcq, .mRel, .mE0, .mE1, .mE2, .mD0, .mD1, .mD2]
+
+/-- Adding a `Pc` constructor without listing it in `Pc.all` breaks the build. -/
+theorem _root_.MlModel.Queue.Pc.all_complete (p : Pc) : p ∈ Pc.all := by
+  cases p <;> first | decide | (rename_i c; cases c <;> decide)
+
+/-- The parked-wait points: the only ones with a timeout alternative `(tid, true)`. -/
+def _root_.MlModel.Queue.Pc.hasAlt : Pc → Bool
+  | .gWake | .bWake | .pWake => true
+  | _ => false
+
+/-- Name of the program point executed by the choice `(pc, alt)`. -/
+def pointName (pc : Pc) (alt : Bool) : String := if alt then pc.name ++ ":timeout" else pc.name
+
+/-- The program points that can execute a step: every `Pc` except the terminal `done`, plus the
+timeout alternative of the three parked-wait points.  Slot of `(pc, alt)` = its index here. -/
+def allPoints : List (Pc × Bool) :=
+  (Pc.all.filter (· != .done)).flatMap fun pc => if pc.hasAlt then [(pc, false), (pc, true)] else [(pc, false)]
+
+def slotOf (pc : Pc) (alt : Bool) : Nat := allPoints.idxOf (pc, alt)
+
+def pcTraceJson (c0 : Cfg) (sched : List (Tid × Bool)) : Json :=
+  let rec go (c : Cfg) (l : List (Tid × Bool)) (acc : Array Json) : Array Json :=
+    match l with
+    | [] => acc
+    | (tid, alt) :: rest =>
+      match c.ths[tid]?, step c tid alt with
+      | some t, some (_, c') => go c' rest (acc.push (Json.str (pointName t.pc alt)))
+      | _, _ => acc
+  Json.arr (go c0 sched #[])
+
+/-! ## `"op": "cover"`: seeded random walks on the LTS + greedy cover of the program points reached -/
+
+/-- Knuth's MMIX linear congruential generator, 64 bit. -/
+def lcg (s : Nat) : Nat := (s * 6364136223846793005 + 1442695040888963407) % 18446744073709551616
+
+/-- next state and a draw in `[0, n)` (from the high bits) -/
+def draw (s n : Nat) : Nat × Nat :=
+  let s' := lcg s
+  ((s' / 4294967296) % (max n 1), s')
+
+structure Walk where
+  sched : Array (Tid × Bool) := #[]
+  /-- slots (indices into `allPoints`) of the points executed, step by step -/
+  slots : Array Nat := #[]
+  /-- "done" (all threads finished) | "deadlock" (nothing enabled) | "max_len" -/
+  ending : String := "max_len"
+
+/-- One random walk: uniform among the enabled ordinary choices; when timeout alternatives are on
+offer one of them is taken with probability 1/10 (always, if nothing else is enabled). -/
+def walk : Nat → Cfg → Nat → Walk → Walk × Nat
+  | 0, c, rng, w => ({ w with ending := if c.allDone then "done" else "max_len" }, rng)
+  | fuel + 1, c, rng, w =>
+    let en := enabled c
+    if en.isEmpty then ({ w with ending := if c.allDone then "done" else "deadlock" }, rng) else
+    let normal := en.filter fun x => !x.2
+    let alts := en.filter fun x => x.2
+    let (r1, rng) := draw rng 10
+    let pool := if !alts.isEmpty && (normal.isEmpty || r1 == 0) then alts else normal
+    let (r2, rng) := draw rng pool.length
+    match pool[r2]? with
+    | none => (w, rng)
+    | some (tid, alt) =>
+      match c.ths[tid]?, step c tid alt with
+      | some t, some (_, c') =>
+        walk fuel c' rng { w with sched := w.sched.push (tid, alt), slots := w.slots.push (slotOf t.pc alt) }
+      | _, _ => (w, rng)
+
+def walkMask (w : Walk) : Nat := w.slots.foldl (fun m i => m ||| (1 <<< i)) 0
+
+def popcount (n bits : Nat) : Nat := (List.range bits).foldl (fun a i => a + (n >>> i) % 2) 0
+
+/-- Greedy cover: repeatedly keep the candidate walk that adds the most points not yet covered
+(ties: the shorter one), until no candidate adds anything. -/
+def greedy (ws : Array (Walk × Nat)) (cand : Walk → Bool) : Nat → Nat → Array Nat → Nat × Array Nat
+  | 0, cov, kept => (cov, kept)
+  | fuel + 1, cov, kept =>
+    let nbits := allPoints.length
+    let best := (List.range ws.size).foldl (fun (b : Option (Nat × Nat × Nat)) i =>
+      match ws[i]? with
+      | none => b
+      | some (w, m) =>
+        if !cand w then b else
+        let gain := popcount (m - (m &&& cov)) nbits
+        if gain == 0 then b else
+        match b with
+        | none => some (i, gain, w.sched.size)
+        | some (_, g, len) => if gain > g || (gain == g && w.sched.size < len) then some (i, gain, w.sched.size) else b) none
+    match best with
+    | none => (cov, kept)
+    | some (i, _, _) =>
+      match ws[i]? with
+      | none => (cov, kept)
+      | some (_, m) => greedy ws cand fuel (cov ||| m) (kept.push i)
+
+def choiceJson : Tid × Bool → Json
+  | (tid, false) => toJson tid
+  | (tid, true) => Json.arr #[toJson tid, Json.str "timeout"]
+
+/-- request: {op:"cover", cap, max_enq, timeout, ignore_error, threads:[prog], seed, walks, max_len}
+response: {schedules:[[tid | [tid,"timeout"]]], ends:["done"|"deadlock"|"max_len"] (one per schedule),
+pcs:{point name: number of times executed over all walks}, all_pcs:[every point name],
+walks, walks_done}.  The kept schedules reach every point reached by any walk; walks that end with all
+threads finished are preferred, others are kept only for points no finished walk reaches. -/
+def handleCover (j : Json) (c0 : Cfg) : Except String Json := do
+  let seed ← Driver.getNat j "seed"
+  let nWalks ← Driver.getNat j "walks"
+  let maxLen ← Driver.getNat j "max_len"
+  let (ws, _) := (List.range nWalks).foldl (fun (acc : Array (Walk × Nat) × Nat) _ =>
+    let (w, rng) := walk maxLen c0 acc.2 {}
+    (acc.1.push (w, walkMask w), rng)) (#[], lcg (seed + 1))
+  let (cov1, kept1) := greedy ws (fun w => w.ending == "done") ws.size 0 #[]
+  let (_, kept) := greedy ws (fun _ => true) ws.size cov1 kept1
+  let counts := ws.foldl (fun (a : Array Nat) (w, _) => w.slots.foldl (fun a i => a.modify i (· + 1)) a)
+    (Array.replicate allPoints.length 0)
+  let names := allPoints.map fun (pc, alt) => pointName pc alt
+  let keptWalks := kept.filterMap fun i => (ws[i]?).map (·.1)
+  return Json.mkObj [
+    ("schedules", Json.arr (keptWalks.map fun w => Json.arr (w.sched.map choiceJson))),
+    ("ends", Json.arr (keptWalks.map fun w => Json.str w.ending)),
+    ("pcs", Json.mkObj ((names.zip counts.toList).filter (·.2 != 0) |>.map fun (n, k) => (n, toJson k))),
+    ("all_pcs", toJson names),
+    ("walks", toJson ws.size),
+    ("walks_done", toJson (ws.filter (·.1.ending == "done")).size)]
+
 /-- request: {cap, max_enq, timeout, ignore_error, threads:[prog], schedule:[tid | [tid,"timeout"]]}
-response: trace of labels, acceptance, final thread states and the set of choices enabled at the end -/
+(optional: want_enabled, want_pcs; `"op": "cover"` selects `handleCover` instead)
+response: trace of labels, acceptance, final thread states and the set of choices enabled at the end;
+with want_pcs also `pc_trace`, the name of the program point executed by every accepted choice -/
 def handle (j : Json) : Except String Json := do
   let cap ← Driver.getNat j "cap"
   let maxEnq ← Driver.getNat j "max_enq"
   let timeout ← Driver.getBool j "timeout"
   let ign ← Driver.getBool j "ignore_error"
   let progs ← (← Driver.getArr j "threads").toList.mapM parseProg
-  let sched ← (← Driver.getArr j "schedule").toList.mapM parseChoice
   let c0 := init cap maxEnq timeout ign progs
+  match j.getObjValAs? String "op" with
+  | .ok "cover" => handleCover j c0
+  | .ok op => throw s!"unknown op {op}"
+  | .error _ =>
+  let sched ← (← Driver.getArr j "schedule").toList.mapM parseChoice
   let (trace, c, ok) := replay c0 sched []
   let enJson (l : List (Tid × Bool)) : Json := Json.arr (l.map fun (tid, alt) =>
         Json.arr #[toJson tid, if alt then Json.str "timeout" else Json.null]).toArray
   let wantEn := (j.getObjValAs? Bool "want_enabled").toOption.getD false
   let enTrace := if wantEn then Json.arr ((replayEnabled c0 sched []).map enJson).toArray else Json.null
-  return Json.mkObj [
+  let wantPcs := (j.getObjValAs? Bool "want_pcs").toOption.getD false
+  return Json.mkObj <| (if wantPcs then [("pc_trace", pcTraceJson c0 sched)] else []) ++ [
     ("enabled_trace", enTrace),
     ("accepted", ok),
     ("trace", Json.arr (trace.map fun (tid, l) => Json.arr #[toJson tid, Json.str l]).toArray),
